@@ -94,4 +94,30 @@ theorem natBE_beNat (bs : Bytes) : natBE bs.length (beNat bs) = bs := by
     rw [hb]
     simp
 
+/-- `big.Int.Bytes()` of a value below `256^k` has at most `k` bytes (leading zero bytes are dropped) -/
+theorem natBytesAux_length : ∀ (fuel n : Nat) (acc : Bytes) (k : Nat), n < 256 ^ k →
+    (natBytesAux fuel n acc).length ≤ acc.length + k := by
+  intro fuel
+  induction fuel with
+  | zero => intro n acc k _; simp [natBytesAux]
+  | succ fuel ih =>
+    intro n acc k hk
+    simp only [natBytesAux]
+    by_cases h0 : n = 0
+    · simp [h0]
+    · simp only [h0, if_false]
+      cases k with
+      | zero => simp at hk; omega
+      | succ k =>
+        have : n / 256 < 256 ^ k := by
+          rw [Nat.pow_succ] at hk
+          exact Nat.div_lt_of_lt_mul (by rw [Nat.mul_comm]; exact hk)
+        have := ih (n / 256) (UInt8.ofNat (n % 256) :: acc) k this
+        simp only [List.length_cons] at this
+        omega
+
+theorem natBytes_length_le (n k : Nat) (h : n < 256 ^ k) : (natBytes n).length ≤ k := by
+  have := natBytesAux_length (n + 1) n [] k h
+  simpa [natBytes] using this
+
 end Dos.ReqLoop
